@@ -432,8 +432,6 @@ class Dict(dict, base.Symbolic, pg_typing.CustomTyping):
 
   def seal(self, sealed: bool = True) -> 'Dict':
     """Seals or unseals current object from further modification."""
-    if self.is_sealed == sealed:
-      return self
     for v in self.sym_values():
       if isinstance(v, base.Symbolic):
         v.seal(sealed)
